@@ -15,8 +15,17 @@ REQUIRED = [P + n for n in (
     "L2_released_exactly_once",
     "L2_unref_true_iff_last",
     "L2_unref_last_releases",
-    "L2_release_frees_owned_blocks_partial",
-    "L2_setter_frees_old_buffer_once_partial",
+    "blocks_empty",
+    "apply_preserves_blocks",
+    "applyFail_preserves",
+    "applyCall_preserves",
+    "step_preserves_all",
+    "step_preserves_blocks",
+    "run_preserves_blocks",
+    "L2_blocks_freed_at_most_once",
+    "L2_blocks_of_allocated_image",
+    "L2_blocks_of_released_image",
+    "L4_all_blocks_freed_at_end",
     "L2_callback_exactly_once",
     "L3_map_outlives_parent",
     "L3_no_chains",
@@ -87,6 +96,10 @@ def oracle(line, out, stats=None):
         if pt is None:
             return ("output", k, "unparsable reply " + t)
         res, live, fired, freed, obs = pt
+        fk = 0                      # "f<k>/<op>": the k-th allocation inside the call fails
+        if "/" in op:
+            pre, op = op.split("/", 1)
+            fk = int(pre[1:])
         f = op.split(":")
         if res == "X":
             classes["refused-by-client-guard"] += 1
@@ -100,6 +113,8 @@ def oracle(line, out, stats=None):
                 kind[nid] = f[0]; ext[nid] = 1; edge[nid] = None; dfunc[nid] = None
                 dims[nid] = (int(f[1]), int(f[2])) if f[0] == "B" else None
                 nid += 1
+            elif fk:
+                classes["alloc-failure:create"] += 1
             elif not (f[0] in "LRC" and int(f[1]) <= 0):
                 return ("create", k, "creation failed")
         elif f[0] == "r":
@@ -161,15 +176,19 @@ def oracle(line, out, stats=None):
         elif f[0] == "GI":
             key, i = int(f[1]), int(f[2])
             should = freeze > 0 and kind[i] == "B"
-            if (res == "T") != should:
+            if fk and should and res == "F":
+                classes["alloc-failure:glyph-insert"] += 1
+            elif (res == "T") != should:
                 return ("glyph", k, f"insert returned {res}")
             if res == "T":
                 kind[nid] = "G"; ext[nid] = 0; edge[nid] = None; dfunc[nid] = None; dims[nid] = dims[i]
                 own[nid] = {"fm": int(dims[i][0] > 0 and dims[i][1] > 0), "tv": 0, "fp": 0, "cs": 0, "st": 0}
                 entries[key] = nid; nid += 1
-            classes["GI:" + ("inserted" if res == "T" else "refused-not-frozen" if freeze <= 0 else "refused-not-bits")] += 1
+            classes["GI:" + ("inserted" if res == "T" else "alloc-failure" if fk and should else "refused-not-frozen" if freeze <= 0 else "refused-not-bits")] += 1
         elif f[0] == "GR":
             entries.pop(int(f[1]), None)
+        if fk and f[0] in "TFKk" and res == "F":
+            classes["alloc-failure:" + f[0]] += 1
         # ---- observations of the images passed
         for i, o in obs.items():
             own[i] = {"fm": int(o["fm"]), "tv": int(int(o["tv"]) > 0), "fp": int(o["fp"]), "cs": int(int(o["cs"]) > 0), "st": int(o["st"])}
@@ -237,6 +256,19 @@ def exhaustive_histories(n):
             if f[0] == "u" and ext[int(f[1])] > 0: ext[int(f[1])] -= 1
         ep = [f"u:{i}" for i in (2, 0, 1) for _ in range(ext[i])]
         yield "hist B:2:2:1:0 B:1:1:1:1 B:3:1:0:1 D:2:1:9 " + " ".join(h) + " " + " ".join(ep)
+
+
+def failure_sweep():
+    """every fallible call x failing allocation 1..3, in a fixed context, followed by each call again"""
+    calls = ["B:2:2:1:0", "B:2:2:0:1", "S", "L:2", "T:0:3", "T:0:-", "F:0:5:65536,65536,65536", "F:0:3:1,2,3", "K:0:5",
+             "K:0:2", "k:0:5", "k:0:20", "GI:1:0"]
+    pro = "hist B:2:2:1:0 F:0:4:1,2 T:0:2 K:0:3 GC GF GI:0:0"
+    for c in calls:
+        for k in (1, 2, 3):
+            for c2 in calls:
+                for k2 in (0, 1):
+                    second = c2 if not k2 else f"f{k2}/{c2}"
+                    yield f"{pro} f{k}/{c} {second} GT GD u:0 u:1 u:2"
 
 
 def run_exec(ctx, exe, lines, tag, timeout=TIMEOUT):
@@ -374,7 +406,8 @@ def run(ctx):
     nex = 4 if quick else 16
     for i in range(nex):
         streams.append((f"exhaustive{i}", ex[i::nex]))
-    nchunks, per = (4, 6000) if quick else (16, 60000)
+    streams.append(("failure-sweep", list(failure_sweep())))
+    nchunks, per = (4, 6000) if quick else (16, 40000)
 
     def gen(i):
         ops, impl = d / f"gen{i}.ops", d / f"gen{i}.impl"
@@ -423,7 +456,9 @@ def run(ctx):
             toks = line.split()[1:]
             lengths[min(len(toks) // 10 * 10, 70)] += 1
             for t in toks:
-                hist[t.split(":")[0]] += 1
+                hist[t.split(":")[0].split("/")[-1]] += 1
+                if "/" in t:
+                    hist["(with allocation failure)"] += 1
             bad = None
             if a.startswith("SKIPPED"):
                 skipped += 1
@@ -489,13 +524,10 @@ def run(ctx):
                       signature=sig, what=(j[2] if j else text) + " — " + small, tag=kind)
     if broken and not ctx.violations:
         ctx.broken_obligations_verdict(broken, "lifetime histories (corpus + exhaustive small scope + generated) found no failing input")
-    ctx.extra["partial_theorems"] = {
-        "L2_release_frees_owned_blocks_partial / L2_setter_frees_old_buffer_once_partial":
-            "per image record only: the induction over histories showing that no other operation touches an image's owning "
-            "fields (frame argument) is not done; covered empirically by the exact block census after every call"}
     ctx.assumptions += [
         "the client respects ownership: it passes only images it holds a reference to, or, as alpha_map argument, the current alpha map of an image it holds (requests that do not are answered X on both sides)",
-        "no allocation failure (C15)",
+        "allocation failure only as injected: the k-th (k<=3) request inside one create_* / set_transform / set_filter / "
+        "set_clip_region(32) / glyph insert call returns NULL; failures inside other calls are C15's",
         "glyph cache below its high-water mark, a key inserted only while absent (hash table and eviction are C17)",
         "malloc returns a block not handed out before or freed since; ASan/LSan and the --wrap table are trusted to observe frees",
         "destroy callbacks do not call back into the library",
